@@ -20,8 +20,8 @@ RULE = ("random ASTs of the documented subset (1-6 inputs, 1-14 statements: all 
         "non-trivial = inside the subset, both readers succeed, at least 3 nodes; distinct = hash of AST + text")
 EXPLANATION = ("AST-level models of both readers (regenerated literal tables), agreement theorems for the proved part, both tied to the "
                "real readers on rendered texts; the property itself judged in Coq on what the two readers returned")
-SHARD = 60
-HASHSEEDS = {"quick": [0, 1], "thorough": [0, 1, 2, 3]}
+SHARD = 20
+HASHSEEDS = {"quick": [0, 1], "thorough": [0, 1, 2]}
 COQ_MAX_NODES = 40
 
 
@@ -75,7 +75,7 @@ def mk_case(rng, ast, style=None, kind="gen"):
 
 
 def generate(rng, tier):
-    n = 150 if tier == "quick" else 2200
+    n = 150 if tier == "quick" else 800
     out = []
     for i in range(n):
         r = rng.random()
